@@ -30,6 +30,7 @@ import (
 	kubeinformers "k8s.io/client-go/informers"
 	coreinformers "k8s.io/client-go/informers/core/v1"
 	kubefake "k8s.io/client-go/kubernetes/fake"
+	corelisters "k8s.io/client-go/listers/core/v1"
 	clienttesting "k8s.io/client-go/testing"
 	"k8s.io/client-go/tools/cache"
 	"k8s.io/client-go/util/retry"
@@ -143,8 +144,9 @@ type World struct {
 	log    []*Call
 	counts map[string]int
 	faults FaultPlan
-	// PVCGetFail makes the claim lister fail for these claim names (lookup failure)
-	active bool
+	// PVCLookupFail makes the claim lister fail for these claim names (lookup failure)
+	PVCLookupFail map[string]bool
+	active        bool
 }
 
 type capPodInformer struct {
@@ -163,6 +165,36 @@ type capSetInformer struct {
 
 func (c capSetInformer) Informer() cache.SharedIndexInformer {
 	return capInformer{c.StatefulSetInformer.Informer(), &c.w.SetHandlers}
+}
+
+type capPVCInformer struct {
+	coreinformers.PersistentVolumeClaimInformer
+	w *World
+}
+
+func (c capPVCInformer) Lister() corelisters.PersistentVolumeClaimLister {
+	return failPVCLister{c.PersistentVolumeClaimInformer.Lister(), c.w}
+}
+
+type failPVCLister struct {
+	corelisters.PersistentVolumeClaimLister
+	w *World
+}
+
+func (l failPVCLister) PersistentVolumeClaims(ns string) corelisters.PersistentVolumeClaimNamespaceLister {
+	return failPVCNSLister{l.PersistentVolumeClaimLister.PersistentVolumeClaims(ns), l.w}
+}
+
+type failPVCNSLister struct {
+	corelisters.PersistentVolumeClaimNamespaceLister
+	w *World
+}
+
+func (l failPVCNSLister) Get(name string) (*v1.PersistentVolumeClaim, error) {
+	if l.w.PVCLookupFail[name] {
+		return nil, apierrors.NewInternalError(fmt.Errorf("injected claim lookup failure"))
+	}
+	return l.PersistentVolumeClaimNamespaceLister.Get(name)
 }
 
 type capInformer struct {
@@ -190,7 +222,7 @@ func New() *World {
 	pvcs := kf.Core().V1().PersistentVolumeClaims()
 	revs := kf.Apps().V1().ControllerRevisions()
 	w.podInf, w.setInf, w.pvcInf = pods.Informer(), sets.Informer(), pvcs.Informer()
-	w.Ctrl = statefulset.NewStatefulSetController(capPodInformer{pods, w}, capSetInformer{sets, w}, pvcs, revs, w.Kube, w.PC)
+	w.Ctrl = statefulset.NewStatefulSetController(capPodInformer{pods, w}, capSetInformer{sets, w}, capPVCInformer{pvcs, w}, revs, w.Kube, w.PC)
 	w.Ctrl.VerifSetRecorder(discardRecorder{})
 	return w
 }
